@@ -1,9 +1,43 @@
-"""C10 — decided by engine E3 envelope (Model/Envelope.lean, Props/C10.lean, go/cmd/hxenv)."""
+"""C10 — transient plaintext key copies on the Go heap are wiped before the call returns.
+Three places hold such copies: the envelope core (engine E3: AEAD/KMS results, the slice handed to the
+secret factory — theorems Props/C10.lean), the two AWS KMS plugins (engine kms: Props/C17
+wrap_wipes_datakey / decrypt_wipes_plaintext) and the secret factories themselves (engine secmem:
+Props/C12 new_wipes_argument).  This check runs all three correspondences."""
+import os, re
 from verifpy import envelope
+from verifpy.common import case_of
 
-NONTRIVIAL = {"C01": ["dec_ok", "key_creations"], "C02": ["faulted_ops", "key_creations"], "C03": ["enc_ok", "key_creations"],
-              "C04": ["key_creations", "metastore_reads"], "C05": ["revocations", "metastore_reads"], "C07": ["mutated_records"],
-              "C09": ["key_creations", "faulted_ops", "metastore_reads"], "C10": ["metastore_reads", "dec_ok"], "C20": ["enc_ok", "dec_ok"]}
+NONTRIVIAL = ["metastore_reads", "dec_ok", "faulted_ops"]
+
+def other_engines(ctx):
+    # AWS KMS plugins: KMS plaintext data keys re-read after the call
+    from verifpy.props.C10_kms import kms_part
+    ctx.driver_args = []
+    kms_part(ctx)
+    ctx.prove(["AsherahVerif.Props.C17", "AsherahVerif.Props.C12"], namespaces=["AsherahVerif.Props.C17.wrap_wipes_datakey", "AsherahVerif.Props.C17.decrypt_wipes_plaintext", "AsherahVerif.Props.C12.new_wipes_argument"])
+    # secret factories: the argument of New after every injected failure
+    from verifpy import secmem_common as sm
+    if ctx.build_driver("secmem"):
+        hx = sm.build_harness(ctx)
+        if hx:
+            for name, args in [("secmem-faults", ["-mode", "faults"]), ("secmem-rlimit", ["-mode", "rlimit"])]:
+                tr = os.path.join(ctx.work, name + ".trace")
+                if not ctx.run_harness(hx, args, tr, timeout=900): continue
+                summ, mism, mon = ctx.run_driver("secmem", tr)
+                ctx.cov["evaluations"] += summ.get("ops", 0)
+                for l in getattr(ctx, "last_notes", [])[:40]:
+                    m = re.match(r"NOTE-C10 line (\d+): (.*)$", l)
+                    if not m: continue
+                    op = m.group(2)
+                    sig = "secmem source-not-wiped " + op[:160]
+                    if re.search(r"^rlimit mg .*res=panic", op): sig = "rlimit mg 0 :: create_fail_is_error:panic (library panic leaves the source) " + sig
+                    ctx.monitor_fail.append({"what": l[:400], "signature": sig, "case": case_of(tr, int(m.group(1)), r"^(world|conc|rlimit) ")})
+                if mism and not mon:
+                    ctx.corr_broken.append("secmem model and implementation disagree: " + mism[0][:300])
+    ctx.trusted += ["go/cmd/hxkms (fake regional KMS clients retain and re-read the plaintexts they returned)",
+                    "go/cmd/hxsecmem (shadow memcall; the slice passed to New re-read after every injected failure)"]
+    ctx.assumptions += ["that MemClr's stores are not elided by the compiler is observed by re-reading the slices, not proved"]
 
 def run(ctx):
-    return envelope.run(ctx, "C10", ["AsherahVerif.Props.C10"], NONTRIVIAL["C10"], modes=(('faults', 'mutations'), ('faultpairs', 'allmutations')))
+    return envelope.run(ctx, "C10", ["AsherahVerif.Props.C10"], NONTRIVIAL, modes=(("faults", "mutations"), ("faultpairs", "allmutations")),
+                        pre_finish=other_engines)
